@@ -174,9 +174,13 @@ func split(ctx context.Context, node *mastNode, key interface{}, mast *Mast) (le
 		}
 	}
 	// TODO: common case maybe not dirty
-	node.dirty = true
-	node.expected = nil
-	node.source = nil
+	if !node.shared {
+		// a shared source node (held by other versions or the node cache) is
+		// only read here; flagging it would switch off copy-on-write for it
+		node.dirty = true
+		node.expected = nil
+		node.source = nil
+	}
 	return leftLink, rightLink, nil
 }
 
